@@ -213,8 +213,8 @@ package mvp6_0
 // prediction differs from the resolved pc, and disarms.
 //@ spec func fuSame(fu *fetchUnit) bool = fu.pc == old(fu.pc) && fu.complete == old(fu.complete) && fu.toCleanPending == old(fu.toCleanPending)
 //@ func (*btbBranchUnit).assert
-//@   mode bv
-//@   requires u != nil && u.btb != nil && u.fu != nil && runner.Runner != nil
+//@   mode int
+//@   requires u != nil && u.btb != nil && u.fu != nil && runner.Runner != nil && runner.Pc <= 2147483643
 //@   ensures risc.insType(runner.Runner).IsUnconditionalBranch() && !btbHas(u.btb, runner.Pc) ==> u.toCheck && u.expectation == -1 && fuSame(u.fu)
 //@   ensures risc.insType(runner.Runner).IsUnconditionalBranch() && btbHas(u.btb, runner.Pc) ==> !u.toCheck && !u.fu.complete && u.fu.toCleanPending
 //@   ensures forall a :: risc.insType(runner.Runner).IsUnconditionalBranch() && btbFirst(u.btb, runner.Pc, a) ==> u.fu.pc == at(u.btb.buffer, a).pcDest
@@ -222,7 +222,7 @@ package mvp6_0
 //@   ensures !risc.insType(runner.Runner).IsBranch() ==> !u.toCheck && u.expectation == old(u.expectation) && fuSame(u.fu)
 
 //@ func (*btbBranchUnit).shouldFlushPipeline
-//@   mode bv
+//@   mode int
 //@   requires u != nil
 //@   ensures result == (old(u.toCheck) && old(u.expectation) != pc)
 //@   ensures !u.toCheck && u.expectation == old(u.expectation)
@@ -231,7 +231,7 @@ package mvp6_0
 // a resolved jump records its target, restarts the fetch unit (live) at the
 // resolved target whatever was predicted, and lifts the decode stall.
 //@ func (*btbBranchUnit).notifyJumpAddressResolved
-//@   mode bv
+//@   mode int
 //@   requires u != nil && wfBTB(u.btb) && u.fu != nil && u.du != nil
 //@   ensures u.fu.pc == pcTo && !u.fu.complete && u.fu.toCleanPending && !u.du.pendingBranchResolution
 //@   ensures wfBTB(u.btb) && btbHas(u.btb, pc) && (forall a :: btbFirst(u.btb, pc, a) ==> at(u.btb.buffer, a).pcDest == pcTo)
